@@ -293,12 +293,20 @@ pub fn record_offsets(output: &str) {
         let tool = tries % 4 != 3;
         let base = tries % 5 != 4;
         let nenv = tries % 3;
-        let lim_from: Joints = std::array::from_fn(|_| r.gen_range(-2.8..-1.0));
-        let lim_to: Joints = std::array::from_fn(|_| r.gen_range(1.0..2.8));
+        let mut lim_from: Joints = std::array::from_fn(|_| r.gen_range(-2.8..-1.0));
+        let mut lim_to: Joints = std::array::from_fn(|_| r.gen_range(1.0..2.8));
+        let two_pi = 2.0 * std::f64::consts::PI;
+        // limit representation classes: same arcs written as wrap-around ranges (from > to) on some joints
+        if tries % 3 == 1 { for i in 0..6 { if r.gen_bool(0.4) { lim_from[i] += two_pi; } } }
         let kin = OPWKinematics::new_with_constraints(Parameters::irb2400_10(), Constraints::new(lim_from, lim_to, BY_PREV));
-        let initial: Joints = std::array::from_fn(|i| r.gen_range(lim_from[i] * 0.5..lim_to[i] * 0.5));
+        let lo = |i: usize| if lim_from[i] > lim_to[i] { lim_from[i] - two_pi } else { lim_from[i] };
+        let mut initial: Joints = std::array::from_fn(|i| r.gen_range(lo(i) * 0.5..lim_to[i] * 0.5));
+        // an initial vector that violates the limits in one joint: only replacing THAT joint can give a legal vector
+        if tries % 5 == 3 { let m = r.gen_range(0..6); initial[m] = lim_to[m] + 0.3; }
+        // joint values on another 2 pi branch (same posture, still legal modulo 2 pi)
+        if tries % 4 == 2 { for i in 0..6 { if r.gen_bool(0.3) { initial[i] += if initial[i] > 0.0 { -two_pi } else { two_pi }; } } }
         // from / to vectors: mostly inside the limits, sometimes outside (must be withheld)
-        let from: Joints = std::array::from_fn(|i| if r.gen_bool(0.15) { lim_from[i] - 0.2 } else { initial[i] - r.gen_range(0.2..0.8) });
+        let from: Joints = std::array::from_fn(|i| if r.gen_bool(0.15) { lo(i) - 0.2 } else { initial[i] - r.gen_range(0.2..0.8) });
         let to: Joints = std::array::from_fn(|i| if r.gen_bool(0.15) { lim_to[i] + 0.2 } else { initial[i] + r.gen_range(0.2..0.8) });
         // the candidate at which a pair is brought together
         let j = r.gen_range(0..6);
